@@ -619,6 +619,9 @@ func (se *specEnv) call(e *Spec) sval {
 		return sval{t: app("select", app("select", se.st.get("MAP"), m.t), k.t), typ: et, sort: "Int"}
 	case "byteof":
 		return mathInt(app("byteof", arg(0).t, arg(1).t))
+	case "store":
+		a, i, v := arg(0), arg(1), arg(2)
+		return sval{t: app("store", a.t, i.t, v.t), sort: a.sort}
 	case "using":
 		// using(lemma(args)): a separately proved arithmetic lemma, instantiated when it is a
 		// hypothesis of a goal; "true" when the enclosing formula is assumed (the lemma is valid).
